@@ -327,8 +327,14 @@ def run(ctx):
         # the resampled record spans the same period N*dt iff M*new_dt == N*dt, i.e. M == factor*N
         period_preserved = (Fraction(M) == x)
         nyq = min(N, M) // 2
+        # highest harmonic strictly below the Nyquist frequency of the SHORTER series: (n_min - 1) // 2 (= nyq for odd n_min, nyq - 1 for even)
+        top = (min(N, M) - 1) // 2
         ncomp = rng.randint(1, 3)
-        cycles = sorted({rng.randint(0, max(0, nyq - 1)) for _ in range(ncomp)})
+        cycles = {rng.randint(0, max(0, top)) for _ in range(ncomp)}
+        if top >= 1 and rng.random() < 0.4:
+            cycles.add(top)                       # the highest admissible harmonic carries energy in 40 % of the cases
+            ctx.hist('band-limited: with the highest admissible harmonic')
+        cycles = sorted(cycles)
         if nyq < 1:
             return
         amps = [rng.choice([0.5, 1.0, 2.0, 3.0]) for _ in cycles]
